@@ -73,8 +73,8 @@ func ReadMods(message *plugin.Message) ([]modinfo.Mod, error) {
 	if err != nil {
 		return nil, err
 	}
-	if modCount > 1024 {
-		return nil, errors.New("mod count is too large")
+	if modCount < 0 || modCount > 1024 {
+		return nil, errors.New("mod count is out of range")
 	}
 	mods := make([]modinfo.Mod, 0, modCount)
 	for range modCount {
